@@ -26,7 +26,7 @@ def run(ctx):
     # ---- 1. what ASYNC_PAUSED saves
     cb = case_blocks(chain)
     saves = field_writes(chain, "active_action_chain_state_")
-    runs = virtual_run_calls(chain)
+    runs = virtual_run_calls(chain, prog=P)
     ctx.count("chain_run_sites", len(runs))
     ctx.floor("chain_run_sites", 1, "virtual run() in run_action_chain")
     ctx.count("state_saves", len(saves))
@@ -40,7 +40,7 @@ def run(ctx):
                   "the chain state is saved only under case ASYNC_PAUSED",
                   "active_action_chain_state_ written outside case ASYNC_PAUSED")
         # the saved plugin is the one that just ran: the receiver of run()
-        recv = chain.text(chain.nodes[runs[0]].get("recv", -1)) if runs else "?"
+        recv = run_receiver_text(chain, runs[0], P) if runs else "?"
         plug = recv.rstrip(">").rstrip("-")          # "action->" -> "action"
         import re as _re
         ctx.check(bool(plug) and bool(_re.search(r"(?<![\w.>])%s\b" % _re.escape(plug), rhs)),
